@@ -39,8 +39,9 @@ int KillMemoryGrowth<Base>::init(
       "growing_size_percentile",
       growing_size_percentile_,
       [&](const std::string& s) {
-        int v = std::stoi(s);
-        if (v < 0 || v >= 100) {
+        size_t end = 0;
+        int v = std::stoi(s, &end);
+        if (end != s.size() || v < 0 || v >= 100) {
           throw std::invalid_argument(
               "growing_size_percentile must be in range [0, 100)");
         }
